@@ -1,7 +1,8 @@
 (* C14 - blade history policy of addition: the two fast paths.  Pinned theorems only. *)
 From Coq Require Import ZArith List Bool Reals Lra.
 From Flocq Require Import Core BinarySingleNaN.
-Require Import GV.FloatBase GV.FloatLemmas GV.AngleM GV.AngleProofs GV.GeonumM GV.GeonumProofs GV.TraitsM GV.NewProofs GV.CtorProofs GV.ClosureProofs GV.SumUpper GV.PiBounds GV.TrigProofs GV.DotValue GV.DirProofs GV.CommProofs GV.DistValue GV.SumDir GV.GradeProofs.
+Require Import GV.FloatBase GV.FloatLemmas GV.AngleM GV.AngleProofs GV.GeonumM GV.GeonumProofs GV.TraitsM GV.NewProofs GV.CtorProofs GV.ClosureProofs GV.SumUpper GV.PiBounds GV.TrigProofs GV.DotValue GV.DirProofs GV.CommProofs GV.DistValue GV.SumDir GV.GradeProofs GV.RunSum.
+Import ListNotations.
 Open Scope R_scope.
 
 (* identical angles: the sum keeps that angle *)
@@ -128,3 +129,40 @@ Theorem C14_grade_from_direction : forall (L : libm) (u u2 : R) a b, cos_acc L u
   (T < Vx -> Vy < - T -> grade (ang r) = 3%Z).
 Proof. exact gadd_grade_from_direction. Qed.
 Print Assumptions C14_grade_from_direction.
+
+(* RUNNING SUMS of any length (induction over the sequence): with atan2 finite and within [-PI, PI] as the only
+   premise on libm, every accumulator of a running sum of canonical operands has a canonical angle and a blade
+   count between the smallest blade count among the operands (a cancelling / dominated step may fall back to an
+   operand's own angle) and the sum of all blade counts plus one full turn per addition *)
+Theorem C14_running_sum : forall (L : libm), atan2_range L -> forall xs acc, gwf acc -> Forall gwf xs ->
+  (blade (ang acc) + bsum xs < 2 ^ 40)%Z ->
+  forall n, let r := fold_left (gadd_vv L) (firstn n xs) acc in
+  gwf r /\ (bmin (blade (ang acc)) xs <= blade (ang r) <= blade (ang acc) + bsum xs)%Z.
+Proof. exact running_sum_prefixes. Qed.
+Print Assumptions C14_running_sum.
+
+(* one step, whichever of the three paths is taken *)
+Theorem C14_step_blades : forall (L : libm), atan2_range L -> forall a b, gwf a -> gwf b ->
+  (blade (ang a) + blade (ang b) < 2 ^ 40)%Z ->
+  gwf (gadd_vv L a b) /\
+  (Z.min (blade (ang a)) (blade (ang b)) <= blade (ang (gadd_vv L a b)) <= blade (ang a) + blade (ang b) + 4)%Z.
+Proof. exact gadd_step_blades. Qed.
+Print Assumptions C14_step_blades.
+
+(* the definitions used above, pinned, and non-vacuity *)
+Theorem C14_running_defs :
+  (forall L, atan2_range L <-> forall y x, fin (atan2F L y x) /\ Rabs (R_ (atan2F L y x)) <= R_ PI) /\
+  (forall g, gwf g <-> canonp (rem (ang g)) /\ (0 <= blade (ang g))%Z) /\
+  (bsum [] = 0%Z /\ forall x r, bsum (x :: r) = (blade (ang x) + 4 + bsum r)%Z) /\
+  (forall m, bmin m [] = m) /\ (forall m x r, bmin m (x :: r) = bmin (Z.min m (blade (ang x))) r).
+Proof.
+split; [intros L; unfold atan2_range; tauto|]. split; [intros g; unfold gwf; tauto|].
+split; [split; [reflexivity|intros; reflexivity]|]. split; intros; reflexivity.
+Qed.
+Print Assumptions C14_running_defs.
+
+Theorem C14_running_inhabited : atan2_range trivial_libm /\
+  (let g k := {| mag := one; ang := {| rem := zero; blade := k |} |} in
+   gwf (g 0%Z) /\ Forall gwf [g 1%Z; g 2%Z; g 7%Z] /\ (blade (ang (g 0%Z)) + bsum [g 1%Z; g 2%Z; g 7%Z] < 2 ^ 40)%Z).
+Proof. exact (conj atan2_range_inhabited running_sum_example). Qed.
+Print Assumptions C14_running_inhabited.
